@@ -9,7 +9,8 @@ CONSTANTS
   ServerRun = TRUE
   CasLoserErrors = TRUE
   ExitCheckAfterHandler = TRUE
+  HooksConcurrent = TRUE
   CountAtAccept = TRUE
 SYMMETRY Sym
 SPECIFICATION Spec
-INVARIANTS TypeOK ActiveCount ObligationsHold SecondShutdownErrors NotRunningErrors NoAcceptAfterClose HooksAwaited InFlightAwaited AcceptedAwaited CloseAnnounced InFlightCompleted EndOK
+INVARIANTS TypeOK ActiveCount ObligationsHold SecondShutdownErrors NotRunningErrors NoAcceptAfterClose HooksStartedAtReturn HooksAwaited InFlightAwaited AcceptedAwaited CloseAnnounced InFlightCompleted EndOK
